@@ -609,7 +609,7 @@ func (g *gen) generate() {
 				continue
 			}
 			n++
-			if !g.cfg.Thorough() && n%3 != 0 {
+			if !g.cfg.Thorough() && n%6 != 0 {
 				continue
 			}
 			c := *in
@@ -828,7 +828,7 @@ func (g *gen) writeShards() error {
 			if err != nil {
 				return 0, err
 			}
-			v := g.envOf(ld).ViewOf(vc, paths)
+			v := g.ownView(ld, vc, paths)
 			or.Note(v)
 			// term lists are shared between the credentials of one @context array (per loader)
 			ck := fmt.Sprintf("%d|%v|%s", ld, v.CtxOK, strings.Join(vc.Context, " "))
